@@ -605,11 +605,13 @@ func init() {
 // everything else keeps its verdict.
 
 type c11HSConfig struct {
-	Opt    int
-	Flag   bool
-	G      *lint.Global
-	BR     lint.CABFBaselineRequirementsConfig
-	Nested struct {
+	hidden0 int // unexported fields sit between the exported ones: they are skipped, what follows is still filled
+	Opt     int
+	hidden1 string
+	Flag    bool
+	G       *lint.Global
+	BR      lint.CABFBaselineRequirementsConfig
+	Nested  struct {
 		E *lint.EtsiEsiConfig
 		N int
 	}
